@@ -221,3 +221,14 @@ Example ex_index_offset_wraps :
   /\ snd (write_v2_header (mktopts (two64 - 52) 0 codec_mh_sorted) 59) = Some TPanic
   /\ w_err (write_to ex_order ex_root (mktopts 7 (two64 - 100) codec_none) 0 (mktrace ex_loads true)) = None.
 Proof. cbv zeta. split; [vm_compute; intro X; discriminate X|]. repeat split; vm_compute; reflexivity. Qed.
+
+(* a history: SelectiveCar.Write into a destination that fails at its 4th Write call (short write:
+   half of the leaf's CID is accepted), then the fault-free Write / Prepare of the same Dags *)
+Example ex_history :
+  fst (sc_history 6 true ex_dags 2 ex_dags)
+  = ((take 53 (enc_payload [ex_root; ex_mid] [(ex_root, ex_rootd); (ex_leaf, ex_leafd)]), false),
+     sc_write_dags 2 ex_dags)
+  /\ snd (sc_history 6 true ex_dags 2 ex_dags) = Some (68, [ex_root; ex_mid], [ex_root; ex_leaf; ex_mid])
+  /\ fault_write 99 true (hdr_chunks ex_rootd ++ flat_map sec_chunks [(ex_leaf, ex_leafd)])
+     = (ld ex_rootd ++ enc_section ex_leaf ex_leafd, false).
+Proof. repeat split; vm_compute; reflexivity. Qed.
